@@ -97,7 +97,7 @@ Definition dominances_ok (n : Z) (m : option (list Z)) (o : option (list (list Z
 Definition jmono_ok (n : Z) (o : option (list (list Z))) : bool :=
   match o with
   | None => true
-  | Some cs => all_b (fun c => match c with [a; b] => in_range n a && in_range n b | _ => false end) cs
+  | Some cs => all_b (fun c => match c with [a; b] => in_range n a && in_range n b && negb (Z.eqb a b) | _ => false end) cs
   end.
 
 (* `if monotonicities and monotonicities[dim] != 0` *)
@@ -237,6 +237,8 @@ Definition dominance_dims_disjoint (md rd : option (list (list Z))) : bool :=
    ValueError *)
 Definition accepts_linear (c : linear_cfg) : bool :=
   match n_monos c, n_num_input_dims c with Some m, Some n => Z.eqb (zlen m) n | _, _ => true end &&
+  (* the Linear layer (num_input_dims given) checks the lengths of the bounds *)
+  match n_num_input_dims c with Some n => len_matches (n_imin c) n && len_matches (n_imax c) n | None => true end &&
   bounds_order_ok (n_imin c) (n_imax c) &&
   match n_mdom c with
   | None => true
